@@ -223,3 +223,57 @@ func VH_C06_closest() {
 	vAssert("C06.1.equals-n-1", len(rn.catchment) == 1 && rn.catchment[0].tname == res.tname)
 }
 
+
+// VH_C06_many: more targets than any small bound (15), many ties: -n K for large K and -d alone. Targets are
+// drawn from a menu of sequences at snp distance 0, 1 or 2 from the query, equally complete, so that file order
+// decides most ranks; the expected list is the stable ordering by (distance, file position).
+func VH_C06_many() {
+	T := vParam("T")
+	menu := []string{"AAAAAAAA", "CAAAAAAA", "CCAAAAAA"}
+	query := vRecord("query", 0, []byte("AAAAAAAA"), false)
+	targets := make([]fastaio.EncodedFastaRecord, T)
+	dist := make([]int, T)
+	cIn := make(chan fastaio.EncodedFastaRecord, T)
+	for n := 0; n < T; n++ {
+		// a fixed, unsorted distance pattern with a few positions left to the solver
+		d := (n*7 + 3) % 3
+		if n%5 == 2 {
+			d = vChoice(vName("d", n), 3)
+		}
+		dist[n] = d
+		targets[n] = vRecord("t"+strconv.Itoa(n), n, []byte(menu[d]), true)
+		cIn <- targets[n]
+	}
+	close(cIn)
+	K := T - vChoice("Kminus", 3)
+	useD := vBool("onlyMaxDist")
+	maxdist := -1.0
+	if useD {
+		maxdist = 1
+		K = 1 << 40
+	}
+	cOut := make(chan catchmentStruct, 1)
+	findClosestN(query, K, maxdist, "snp", cIn, cOut)
+	res := <-cOut
+	var exp []string
+	for d := 0; d <= 2; d++ {
+		if useD && d > 1 {
+			break
+		}
+		for n := 0; n < T; n++ {
+			if dist[n] == d {
+				exp = append(exp, "t"+strconv.Itoa(n))
+			}
+		}
+	}
+	if len(exp) > K {
+		exp = exp[:K]
+	}
+	vAssert("C06.many.size", len(res.catchment) == len(exp))
+	if len(res.catchment) != len(exp) {
+		return
+	}
+	for i := range exp {
+		vAssert("C06.many.documented-order-with-many-ties", res.catchment[i].tname == exp[i])
+	}
+}
